@@ -1,5 +1,88 @@
-import XlVerif.Base
-/-! Driver for C01 (stub: replaced when the property's model is built). -/
+import XlVerif.Model.C01
+import XlVerif.Spec.C01
+import XlVerif.Drv.C02
+/-! Driver for C01.
+  `C01 eval <seed> <expr> <env>` →
+      `text=<render>  spec=<denote>  impl=<evaluateFormula of that text>  tree=<treeOf>  wf=0|1  dom=0|1  sens=0|1`
+  (`sens=1`: the outcome depends on IEEE rounding of an intermediate float — outside the compared domain)
+  `<expr>`, `<seed>`: as for `C02 expr` (wire form of an abstract expression, blank oracle).
+  `<env>`: `ADDR~<value>` items joined by `|` (or empty); value = `I:<int>` or `F:<num>/<den>`; the model
+  gets the number as given (int or float), the Spec its rational value.
+  `spec`: `F:<num>/<den>` number, `T:<code points>` text, `B:0|1`, `E:<CODE>`, `U` (the statement is silent).
+  `impl`: a value in the wire form of `Base.lean`, `N:nonfinite`, or `X:<Exception>`.
+  `C01 evaltext <text> <env>` → `impl=…` for a raw formula text.
+-/
 namespace XlVerif.Drv.C01
-def handle (_fields : List String) : String := "error=not-implemented"
+open XlVerif XlVerif.Model.Value XlVerif.Spec.C02
+
+def envOf (w : String) : Option (List (List Char × Num)) :=
+  if w.isEmpty then some [] else
+    (w.splitOn "|").mapM fun p =>
+      match p.splitOn "~" with
+      | [a, v] => (match S.ofWire? v with
+                   | some (.num n) => some (a.toList, n)
+                   | _ => none)
+      | _ => none
+
+def modelEnv (l : List (List Char × Num)) : XlVerif.Model.C01.Env := fun a => lookup a l
+def specEnv (l : List (List Char × Num)) : XlVerif.Spec.C01.Env := fun a =>
+  match lookup a l with | some n => n.toRat | none => 0
+
+def resW : XlVerif.Spec.C01.Res → String
+  | .num q => "F:" ++ ratWire q
+  | .text s => "T:" ++ textWire s
+  | .bool b => if b then "B:1" else "B:0"
+  | .err c => "E:" ++ c.wire
+  | .undef => "U"
+
+def oprW : OpR → String
+  | .val s => s.wire
+  | .nonfinite => "N:nonfinite"
+  | .py k => "X:" ++ k.wire
+
+/-- Is the outcome of `e` sensitive to IEEE rounding (which neither Spec nor model describe)?  True when
+    some comparison, or the zero test of a division, or the integrality test of an exponent, is applied to
+    operands that the implementation holds as floats (not integers by construction) and whose exact
+    values are equal or closer than 1e-9 relatively.  Such inputs are outside the compared domain. -/
+def sensitive (env : XlVerif.Spec.C01.Env) : Expr → Bool
+  | .neg e => sensitive env e
+  | .paren e => sensitive env e
+  | .bin o l r =>
+    sensitive env l || sensitive env r ||
+    (let exl := (XlVerif.Spec.C01.exactInt env l).isSome
+     let exr := (XlVerif.Spec.C01.exactInt env r).isSome
+     let close (a b : Rat) : Bool :=
+       let d := if a - b < 0 then b - a else a - b
+       let m := (if a < 0 then -a else a) + (if b < 0 then -b else b) + 1
+       decide (d * 1000000000 < m)
+     match XlVerif.Spec.C01.toNum (XlVerif.Spec.C01.denote env l),
+           XlVerif.Spec.C01.toNum (XlVerif.Spec.C01.denote env r) with
+     | .num a, .num b =>
+       (match o with
+        | .div => !exr && close b 0
+        | .pow => !exr && (decide (a < 0) || close a 0) || (!exl && close a 0 && decide (b < 0))
+        | .add | .sub | .mul | .cat => false
+        | _ => !(exl && exr) && close a b)
+     | _, _ => false)
+  | _ => false
+
+def handle (fields : List String) : String :=
+  match fields with
+  | ["eval", seed, w, envw] =>
+    (match seed.toNat?, XlVerif.Drv.C02.exprOf (w.splitOn " "), envOf envw with
+     | some sd, some (e, []), some env =>
+       let text := render (XlVerif.Drv.C02.oracle sd) e
+       kv [("text", textWire text),
+           ("spec", resW (XlVerif.Spec.C01.denote (specEnv env) e)),
+           ("impl", oprW (XlVerif.Model.C01.evaluateFormula text (modelEnv env))),
+           ("tree", XlVerif.Drv.C02.treeW (treeOf e)),
+           ("wf", if wfB e then "1" else "0"),
+           ("dom", if XlVerif.Spec.C01.inC01 e then "1" else "0"),
+           ("sens", if sensitive (specEnv env) e then "1" else "0")]
+     | _, _, _ => "error=bad-args")
+  | ["evaltext", t, envw] =>
+    (match parseText? t, envOf envw with
+     | some s, some env => kv [("impl", oprW (XlVerif.Model.C01.evaluateFormula s (modelEnv env)))]
+     | _, _ => "error=bad-args")
+  | _ => "error=bad-request"
 end XlVerif.Drv.C01
